@@ -2,464 +2,133 @@
 //! column range inside that line.
 use super::super::*;
 
-/// Requires: `span` = `input[s..e]` is a sub-slice of `input` on character boundaries
-/// (the `assert!` at the top of `new` is the function's real precondition).  Checks the
-/// real `ParseError::new` on that one (input, span) against a reference computed from
-/// the bytes.
-fn check_one(input: &'static str, s: usize, e: usize) {
-    let buf = input.as_bytes();
-    let n = buf.len();
-    let span = &input[s..e];
-    let err = ParseError::new(input, (LexErrorKind::EOF, span));
-    // reference: line containing byte offset s
-    let mut line_no = 0;
-    let mut line_start = 0;
-    let mut i = 0;
-    while i < s {
-        if buf[i] == b'\n' {
-            line_no += 1;
-            line_start = i + 1;
+/// One (input, span) case of the real `ParseError::new`, spelled inline on literals
+/// (a helper FUNCTION taking the text makes CBMC lose the constants: one call through a
+/// function did not finish in 300 s, the same call inline takes 3 s).
+/// Requires (the `assert!` at the top of `new`): `span` = `input[s..e]` is a sub-slice of
+/// `input`; s and e are character boundaries.  The expected values are the reference
+/// reading of the statement, computed by the generator of this list: `line` = number of
+/// line breaks in front of byte s, the reported line = the text between the line breaks
+/// around s (`ls` = its start, `ll` = its length), column = s - ls, length = the span
+/// cut at the end of that line.
+macro_rules! pe_case {
+    ($input:literal, $s:literal, $e:literal => line $line:literal, ls $ls:literal, ll $ll:literal, col $col:literal, len $len:literal) => {{
+        let input: &'static str = $input;
+        let err = ParseError::new(input, (LexErrorKind::EOF, &input[$s..$e]));
+        assert!(err.line_number == $line, "the error designates the line where the span starts");
+        assert!(
+            std::ptr::eq(err.input.as_ptr(), unsafe { input.as_ptr().add($ls) }) && err.input.len() == $ll,
+            "the reported line is exactly that line of the input"
+        );
+        assert!(err.span_start == $col, "the column is the offset inside that line");
+        assert!(err.span_len == $len, "the column range is the span cut at the end of the line");
+        assert!(err.span_start + err.span_len <= err.input.len(), "the column range lies inside the line");
+        std::mem::forget(err);
+    }};
+}
+
+// EVERY text of up to 2 characters over {line break, a, e-acute (2 bytes)} and EVERY
+// sub-slice of it on character boundaries, plus all sub-slices of `a\\n` + e-acute and of
+// `\\n` + e-acute + `\\n`: ONE case per obligation (generated list).  Measured and given up:
+// N symbolic bytes with a symbolic or constant span cost 220-330 s for ONE byte and do
+// not finish in 400 s for two (the substring searcher `memchr` runs on a slice whose
+// length is a difference of pointer VALUES, which CBMC does not fold); ten literal cases
+// in one obligation do not finish in 300 s either, one case takes 3 s.
+macro_rules! pe_harness {
+    ($name:ident, $($case:tt)*) => {
+        #[kani::proof]
+        #[kani::unwind(10)]
+        fn $name() {
+            $($case)*
+            kani::cover!(true, "case completed");
         }
-        i += 1;
-    }
-    let mut line_end = line_start;
-    while line_end < n && buf[line_end] != b'\n' {
-        line_end += 1;
-    }
-    assert!(err.line_number == line_no, "the error designates the line where the span starts");
-    assert!(
-        std::ptr::eq(err.input.as_ptr(), unsafe { input.as_ptr().add(line_start) }) && err.input.len() == line_end - line_start,
-        "the reported line is exactly that line of the input"
-    );
-    assert!(err.span_start == s - line_start, "the column is the offset inside that line");
-    assert!(err.span_start + err.span_len <= err.input.len(), "the column range lies inside the line");
-    // the span is cut at the end of its first line, not shortened otherwise
-    assert!(err.span_len == if e <= line_end { e - s } else { line_end - s }, "the column range is the span cut at the end of the line");
-    assert!(
-        err.input.is_char_boundary(err.span_start) && err.input.is_char_boundary(err.span_start + err.span_len),
-        "the column range can be sliced out of the line"
-    );
-    std::mem::forget(err);
+    };
 }
 
-// EVERY text of up to 3 characters over {'\n', 'a', 'é' (2 bytes)} and EVERY sub-slice of
-// it on character boundaries, each spelled out as its own loop-free call on a string
-// literal (generated list).  The symbolic formulations were measured and given up: N
-// symbolic bytes with a symbolic or constant span cost 220-330 s for ONE byte and do not
-// finish in 400 s for two (the substring searcher `memchr` runs on a slice whose length
-// is a difference of pointer VALUES, which CBMC does not fold); a concrete enumeration
-// with loops does not finish either, for the same reason.
-#[kani::proof]
-#[kani::unwind(8)]
-fn parse_error_new__texts_of_0_and_1_chars() {
-    check_one("", 0, 0);
-    check_one("\n", 0, 0);
-    check_one("\n", 0, 1);
-    check_one("\n", 1, 1);
-    check_one("a", 0, 0);
-    check_one("a", 0, 1);
-    check_one("a", 1, 1);
-    check_one("\u{e9}", 0, 0);
-    check_one("\u{e9}", 0, 2);
-    check_one("\u{e9}", 2, 2);
-    kani::cover!(true, "list completed");
-}
-
-#[kani::proof]
-#[kani::unwind(8)]
-fn parse_error_new__texts_of_2_chars_part1() {
-    check_one("\n\n", 0, 0);
-    check_one("\n\n", 0, 1);
-    check_one("\n\n", 0, 2);
-    check_one("\n\n", 1, 1);
-    check_one("\n\n", 1, 2);
-    check_one("\n\n", 2, 2);
-    check_one("\na", 0, 0);
-    check_one("\na", 0, 1);
-    check_one("\na", 0, 2);
-    check_one("\na", 1, 1);
-    check_one("\na", 1, 2);
-    check_one("\na", 2, 2);
-    check_one("\n\u{e9}", 0, 0);
-    check_one("\n\u{e9}", 0, 1);
-    check_one("\n\u{e9}", 0, 3);
-    check_one("\n\u{e9}", 1, 1);
-    check_one("\n\u{e9}", 1, 3);
-    check_one("\n\u{e9}", 3, 3);
-    kani::cover!(true, "list completed");
-}
-
-#[kani::proof]
-#[kani::unwind(8)]
-fn parse_error_new__texts_of_2_chars_part2() {
-    check_one("a\n", 0, 0);
-    check_one("a\n", 0, 1);
-    check_one("a\n", 0, 2);
-    check_one("a\n", 1, 1);
-    check_one("a\n", 1, 2);
-    check_one("a\n", 2, 2);
-    check_one("aa", 0, 0);
-    check_one("aa", 0, 1);
-    check_one("aa", 0, 2);
-    check_one("aa", 1, 1);
-    check_one("aa", 1, 2);
-    check_one("aa", 2, 2);
-    check_one("a\u{e9}", 0, 0);
-    check_one("a\u{e9}", 0, 1);
-    check_one("a\u{e9}", 0, 3);
-    check_one("a\u{e9}", 1, 1);
-    check_one("a\u{e9}", 1, 3);
-    check_one("a\u{e9}", 3, 3);
-    kani::cover!(true, "list completed");
-}
-
-#[kani::proof]
-#[kani::unwind(8)]
-fn parse_error_new__texts_of_2_chars_part3() {
-    check_one("\u{e9}\n", 0, 0);
-    check_one("\u{e9}\n", 0, 2);
-    check_one("\u{e9}\n", 0, 3);
-    check_one("\u{e9}\n", 2, 2);
-    check_one("\u{e9}\n", 2, 3);
-    check_one("\u{e9}\n", 3, 3);
-    check_one("\u{e9}a", 0, 0);
-    check_one("\u{e9}a", 0, 2);
-    check_one("\u{e9}a", 0, 3);
-    check_one("\u{e9}a", 2, 2);
-    check_one("\u{e9}a", 2, 3);
-    check_one("\u{e9}a", 3, 3);
-    check_one("\u{e9}\u{e9}", 0, 0);
-    check_one("\u{e9}\u{e9}", 0, 2);
-    check_one("\u{e9}\u{e9}", 0, 4);
-    check_one("\u{e9}\u{e9}", 2, 2);
-    check_one("\u{e9}\u{e9}", 2, 4);
-    check_one("\u{e9}\u{e9}", 4, 4);
-    kani::cover!(true, "list completed");
-}
-
-#[kani::proof]
-#[kani::unwind(10)]
-fn parse_error_new__texts_of_3_chars_part1() {
-    check_one("\n\n\n", 0, 0);
-    check_one("\n\n\n", 0, 1);
-    check_one("\n\n\n", 0, 2);
-    check_one("\n\n\n", 0, 3);
-    check_one("\n\n\n", 1, 1);
-    check_one("\n\n\n", 1, 2);
-    check_one("\n\n\n", 1, 3);
-    check_one("\n\n\n", 2, 2);
-    check_one("\n\n\n", 2, 3);
-    check_one("\n\n\n", 3, 3);
-    check_one("\n\na", 0, 0);
-    check_one("\n\na", 0, 1);
-    check_one("\n\na", 0, 2);
-    check_one("\n\na", 0, 3);
-    check_one("\n\na", 1, 1);
-    check_one("\n\na", 1, 2);
-    check_one("\n\na", 1, 3);
-    check_one("\n\na", 2, 2);
-    check_one("\n\na", 2, 3);
-    check_one("\n\na", 3, 3);
-    check_one("\n\n\u{e9}", 0, 0);
-    check_one("\n\n\u{e9}", 0, 1);
-    check_one("\n\n\u{e9}", 0, 2);
-    check_one("\n\n\u{e9}", 0, 4);
-    check_one("\n\n\u{e9}", 1, 1);
-    check_one("\n\n\u{e9}", 1, 2);
-    check_one("\n\n\u{e9}", 1, 4);
-    check_one("\n\n\u{e9}", 2, 2);
-    check_one("\n\n\u{e9}", 2, 4);
-    check_one("\n\n\u{e9}", 4, 4);
-    kani::cover!(true, "list completed");
-}
-
-#[kani::proof]
-#[kani::unwind(10)]
-fn parse_error_new__texts_of_3_chars_part2() {
-    check_one("\na\n", 0, 0);
-    check_one("\na\n", 0, 1);
-    check_one("\na\n", 0, 2);
-    check_one("\na\n", 0, 3);
-    check_one("\na\n", 1, 1);
-    check_one("\na\n", 1, 2);
-    check_one("\na\n", 1, 3);
-    check_one("\na\n", 2, 2);
-    check_one("\na\n", 2, 3);
-    check_one("\na\n", 3, 3);
-    check_one("\naa", 0, 0);
-    check_one("\naa", 0, 1);
-    check_one("\naa", 0, 2);
-    check_one("\naa", 0, 3);
-    check_one("\naa", 1, 1);
-    check_one("\naa", 1, 2);
-    check_one("\naa", 1, 3);
-    check_one("\naa", 2, 2);
-    check_one("\naa", 2, 3);
-    check_one("\naa", 3, 3);
-    check_one("\na\u{e9}", 0, 0);
-    check_one("\na\u{e9}", 0, 1);
-    check_one("\na\u{e9}", 0, 2);
-    check_one("\na\u{e9}", 0, 4);
-    check_one("\na\u{e9}", 1, 1);
-    check_one("\na\u{e9}", 1, 2);
-    check_one("\na\u{e9}", 1, 4);
-    check_one("\na\u{e9}", 2, 2);
-    check_one("\na\u{e9}", 2, 4);
-    check_one("\na\u{e9}", 4, 4);
-    kani::cover!(true, "list completed");
-}
-
-#[kani::proof]
-#[kani::unwind(10)]
-fn parse_error_new__texts_of_3_chars_part3() {
-    check_one("\n\u{e9}\n", 0, 0);
-    check_one("\n\u{e9}\n", 0, 1);
-    check_one("\n\u{e9}\n", 0, 3);
-    check_one("\n\u{e9}\n", 0, 4);
-    check_one("\n\u{e9}\n", 1, 1);
-    check_one("\n\u{e9}\n", 1, 3);
-    check_one("\n\u{e9}\n", 1, 4);
-    check_one("\n\u{e9}\n", 3, 3);
-    check_one("\n\u{e9}\n", 3, 4);
-    check_one("\n\u{e9}\n", 4, 4);
-    check_one("\n\u{e9}a", 0, 0);
-    check_one("\n\u{e9}a", 0, 1);
-    check_one("\n\u{e9}a", 0, 3);
-    check_one("\n\u{e9}a", 0, 4);
-    check_one("\n\u{e9}a", 1, 1);
-    check_one("\n\u{e9}a", 1, 3);
-    check_one("\n\u{e9}a", 1, 4);
-    check_one("\n\u{e9}a", 3, 3);
-    check_one("\n\u{e9}a", 3, 4);
-    check_one("\n\u{e9}a", 4, 4);
-    check_one("\n\u{e9}\u{e9}", 0, 0);
-    check_one("\n\u{e9}\u{e9}", 0, 1);
-    check_one("\n\u{e9}\u{e9}", 0, 3);
-    check_one("\n\u{e9}\u{e9}", 0, 5);
-    check_one("\n\u{e9}\u{e9}", 1, 1);
-    check_one("\n\u{e9}\u{e9}", 1, 3);
-    check_one("\n\u{e9}\u{e9}", 1, 5);
-    check_one("\n\u{e9}\u{e9}", 3, 3);
-    check_one("\n\u{e9}\u{e9}", 3, 5);
-    check_one("\n\u{e9}\u{e9}", 5, 5);
-    kani::cover!(true, "list completed");
-}
-
-#[kani::proof]
-#[kani::unwind(10)]
-fn parse_error_new__texts_of_3_chars_part4() {
-    check_one("a\n\n", 0, 0);
-    check_one("a\n\n", 0, 1);
-    check_one("a\n\n", 0, 2);
-    check_one("a\n\n", 0, 3);
-    check_one("a\n\n", 1, 1);
-    check_one("a\n\n", 1, 2);
-    check_one("a\n\n", 1, 3);
-    check_one("a\n\n", 2, 2);
-    check_one("a\n\n", 2, 3);
-    check_one("a\n\n", 3, 3);
-    check_one("a\na", 0, 0);
-    check_one("a\na", 0, 1);
-    check_one("a\na", 0, 2);
-    check_one("a\na", 0, 3);
-    check_one("a\na", 1, 1);
-    check_one("a\na", 1, 2);
-    check_one("a\na", 1, 3);
-    check_one("a\na", 2, 2);
-    check_one("a\na", 2, 3);
-    check_one("a\na", 3, 3);
-    check_one("a\n\u{e9}", 0, 0);
-    check_one("a\n\u{e9}", 0, 1);
-    check_one("a\n\u{e9}", 0, 2);
-    check_one("a\n\u{e9}", 0, 4);
-    check_one("a\n\u{e9}", 1, 1);
-    check_one("a\n\u{e9}", 1, 2);
-    check_one("a\n\u{e9}", 1, 4);
-    check_one("a\n\u{e9}", 2, 2);
-    check_one("a\n\u{e9}", 2, 4);
-    check_one("a\n\u{e9}", 4, 4);
-    kani::cover!(true, "list completed");
-}
-
-#[kani::proof]
-#[kani::unwind(10)]
-fn parse_error_new__texts_of_3_chars_part5() {
-    check_one("aa\n", 0, 0);
-    check_one("aa\n", 0, 1);
-    check_one("aa\n", 0, 2);
-    check_one("aa\n", 0, 3);
-    check_one("aa\n", 1, 1);
-    check_one("aa\n", 1, 2);
-    check_one("aa\n", 1, 3);
-    check_one("aa\n", 2, 2);
-    check_one("aa\n", 2, 3);
-    check_one("aa\n", 3, 3);
-    check_one("aaa", 0, 0);
-    check_one("aaa", 0, 1);
-    check_one("aaa", 0, 2);
-    check_one("aaa", 0, 3);
-    check_one("aaa", 1, 1);
-    check_one("aaa", 1, 2);
-    check_one("aaa", 1, 3);
-    check_one("aaa", 2, 2);
-    check_one("aaa", 2, 3);
-    check_one("aaa", 3, 3);
-    check_one("aa\u{e9}", 0, 0);
-    check_one("aa\u{e9}", 0, 1);
-    check_one("aa\u{e9}", 0, 2);
-    check_one("aa\u{e9}", 0, 4);
-    check_one("aa\u{e9}", 1, 1);
-    check_one("aa\u{e9}", 1, 2);
-    check_one("aa\u{e9}", 1, 4);
-    check_one("aa\u{e9}", 2, 2);
-    check_one("aa\u{e9}", 2, 4);
-    check_one("aa\u{e9}", 4, 4);
-    kani::cover!(true, "list completed");
-}
-
-#[kani::proof]
-#[kani::unwind(10)]
-fn parse_error_new__texts_of_3_chars_part6() {
-    check_one("a\u{e9}\n", 0, 0);
-    check_one("a\u{e9}\n", 0, 1);
-    check_one("a\u{e9}\n", 0, 3);
-    check_one("a\u{e9}\n", 0, 4);
-    check_one("a\u{e9}\n", 1, 1);
-    check_one("a\u{e9}\n", 1, 3);
-    check_one("a\u{e9}\n", 1, 4);
-    check_one("a\u{e9}\n", 3, 3);
-    check_one("a\u{e9}\n", 3, 4);
-    check_one("a\u{e9}\n", 4, 4);
-    check_one("a\u{e9}a", 0, 0);
-    check_one("a\u{e9}a", 0, 1);
-    check_one("a\u{e9}a", 0, 3);
-    check_one("a\u{e9}a", 0, 4);
-    check_one("a\u{e9}a", 1, 1);
-    check_one("a\u{e9}a", 1, 3);
-    check_one("a\u{e9}a", 1, 4);
-    check_one("a\u{e9}a", 3, 3);
-    check_one("a\u{e9}a", 3, 4);
-    check_one("a\u{e9}a", 4, 4);
-    check_one("a\u{e9}\u{e9}", 0, 0);
-    check_one("a\u{e9}\u{e9}", 0, 1);
-    check_one("a\u{e9}\u{e9}", 0, 3);
-    check_one("a\u{e9}\u{e9}", 0, 5);
-    check_one("a\u{e9}\u{e9}", 1, 1);
-    check_one("a\u{e9}\u{e9}", 1, 3);
-    check_one("a\u{e9}\u{e9}", 1, 5);
-    check_one("a\u{e9}\u{e9}", 3, 3);
-    check_one("a\u{e9}\u{e9}", 3, 5);
-    check_one("a\u{e9}\u{e9}", 5, 5);
-    kani::cover!(true, "list completed");
-}
-
-#[kani::proof]
-#[kani::unwind(10)]
-fn parse_error_new__texts_of_3_chars_part7() {
-    check_one("\u{e9}\n\n", 0, 0);
-    check_one("\u{e9}\n\n", 0, 2);
-    check_one("\u{e9}\n\n", 0, 3);
-    check_one("\u{e9}\n\n", 0, 4);
-    check_one("\u{e9}\n\n", 2, 2);
-    check_one("\u{e9}\n\n", 2, 3);
-    check_one("\u{e9}\n\n", 2, 4);
-    check_one("\u{e9}\n\n", 3, 3);
-    check_one("\u{e9}\n\n", 3, 4);
-    check_one("\u{e9}\n\n", 4, 4);
-    check_one("\u{e9}\na", 0, 0);
-    check_one("\u{e9}\na", 0, 2);
-    check_one("\u{e9}\na", 0, 3);
-    check_one("\u{e9}\na", 0, 4);
-    check_one("\u{e9}\na", 2, 2);
-    check_one("\u{e9}\na", 2, 3);
-    check_one("\u{e9}\na", 2, 4);
-    check_one("\u{e9}\na", 3, 3);
-    check_one("\u{e9}\na", 3, 4);
-    check_one("\u{e9}\na", 4, 4);
-    check_one("\u{e9}\n\u{e9}", 0, 0);
-    check_one("\u{e9}\n\u{e9}", 0, 2);
-    check_one("\u{e9}\n\u{e9}", 0, 3);
-    check_one("\u{e9}\n\u{e9}", 0, 5);
-    check_one("\u{e9}\n\u{e9}", 2, 2);
-    check_one("\u{e9}\n\u{e9}", 2, 3);
-    check_one("\u{e9}\n\u{e9}", 2, 5);
-    check_one("\u{e9}\n\u{e9}", 3, 3);
-    check_one("\u{e9}\n\u{e9}", 3, 5);
-    check_one("\u{e9}\n\u{e9}", 5, 5);
-    kani::cover!(true, "list completed");
-}
-
-#[kani::proof]
-#[kani::unwind(10)]
-fn parse_error_new__texts_of_3_chars_part8() {
-    check_one("\u{e9}a\n", 0, 0);
-    check_one("\u{e9}a\n", 0, 2);
-    check_one("\u{e9}a\n", 0, 3);
-    check_one("\u{e9}a\n", 0, 4);
-    check_one("\u{e9}a\n", 2, 2);
-    check_one("\u{e9}a\n", 2, 3);
-    check_one("\u{e9}a\n", 2, 4);
-    check_one("\u{e9}a\n", 3, 3);
-    check_one("\u{e9}a\n", 3, 4);
-    check_one("\u{e9}a\n", 4, 4);
-    check_one("\u{e9}aa", 0, 0);
-    check_one("\u{e9}aa", 0, 2);
-    check_one("\u{e9}aa", 0, 3);
-    check_one("\u{e9}aa", 0, 4);
-    check_one("\u{e9}aa", 2, 2);
-    check_one("\u{e9}aa", 2, 3);
-    check_one("\u{e9}aa", 2, 4);
-    check_one("\u{e9}aa", 3, 3);
-    check_one("\u{e9}aa", 3, 4);
-    check_one("\u{e9}aa", 4, 4);
-    check_one("\u{e9}a\u{e9}", 0, 0);
-    check_one("\u{e9}a\u{e9}", 0, 2);
-    check_one("\u{e9}a\u{e9}", 0, 3);
-    check_one("\u{e9}a\u{e9}", 0, 5);
-    check_one("\u{e9}a\u{e9}", 2, 2);
-    check_one("\u{e9}a\u{e9}", 2, 3);
-    check_one("\u{e9}a\u{e9}", 2, 5);
-    check_one("\u{e9}a\u{e9}", 3, 3);
-    check_one("\u{e9}a\u{e9}", 3, 5);
-    check_one("\u{e9}a\u{e9}", 5, 5);
-    kani::cover!(true, "list completed");
-}
-
-#[kani::proof]
-#[kani::unwind(10)]
-fn parse_error_new__texts_of_3_chars_part9() {
-    check_one("\u{e9}\u{e9}\n", 0, 0);
-    check_one("\u{e9}\u{e9}\n", 0, 2);
-    check_one("\u{e9}\u{e9}\n", 0, 4);
-    check_one("\u{e9}\u{e9}\n", 0, 5);
-    check_one("\u{e9}\u{e9}\n", 2, 2);
-    check_one("\u{e9}\u{e9}\n", 2, 4);
-    check_one("\u{e9}\u{e9}\n", 2, 5);
-    check_one("\u{e9}\u{e9}\n", 4, 4);
-    check_one("\u{e9}\u{e9}\n", 4, 5);
-    check_one("\u{e9}\u{e9}\n", 5, 5);
-    check_one("\u{e9}\u{e9}a", 0, 0);
-    check_one("\u{e9}\u{e9}a", 0, 2);
-    check_one("\u{e9}\u{e9}a", 0, 4);
-    check_one("\u{e9}\u{e9}a", 0, 5);
-    check_one("\u{e9}\u{e9}a", 2, 2);
-    check_one("\u{e9}\u{e9}a", 2, 4);
-    check_one("\u{e9}\u{e9}a", 2, 5);
-    check_one("\u{e9}\u{e9}a", 4, 4);
-    check_one("\u{e9}\u{e9}a", 4, 5);
-    check_one("\u{e9}\u{e9}a", 5, 5);
-    check_one("\u{e9}\u{e9}\u{e9}", 0, 0);
-    check_one("\u{e9}\u{e9}\u{e9}", 0, 2);
-    check_one("\u{e9}\u{e9}\u{e9}", 0, 4);
-    check_one("\u{e9}\u{e9}\u{e9}", 0, 6);
-    check_one("\u{e9}\u{e9}\u{e9}", 2, 2);
-    check_one("\u{e9}\u{e9}\u{e9}", 2, 4);
-    check_one("\u{e9}\u{e9}\u{e9}", 2, 6);
-    check_one("\u{e9}\u{e9}\u{e9}", 4, 4);
-    check_one("\u{e9}\u{e9}\u{e9}", 4, 6);
-    check_one("\u{e9}\u{e9}\u{e9}", 6, 6);
-    kani::cover!(true, "list completed");
-}
+pe_harness!(parse_error_new__text_empty__span_0_0, pe_case!("", 0, 0 => line 0, ls 0, ll 0, col 0, len 0););
+pe_harness!(parse_error_new__text_nl__span_0_0, pe_case!("\n", 0, 0 => line 0, ls 0, ll 0, col 0, len 0););
+pe_harness!(parse_error_new__text_nl__span_0_1, pe_case!("\n", 0, 1 => line 0, ls 0, ll 0, col 0, len 0););
+pe_harness!(parse_error_new__text_nl__span_1_1, pe_case!("\n", 1, 1 => line 1, ls 1, ll 0, col 0, len 0););
+pe_harness!(parse_error_new__text_a__span_0_0, pe_case!("a", 0, 0 => line 0, ls 0, ll 1, col 0, len 0););
+pe_harness!(parse_error_new__text_a__span_0_1, pe_case!("a", 0, 1 => line 0, ls 0, ll 1, col 0, len 1););
+pe_harness!(parse_error_new__text_a__span_1_1, pe_case!("a", 1, 1 => line 0, ls 0, ll 1, col 1, len 0););
+pe_harness!(parse_error_new__text_e__span_0_0, pe_case!("\u{e9}", 0, 0 => line 0, ls 0, ll 2, col 0, len 0););
+pe_harness!(parse_error_new__text_e__span_0_2, pe_case!("\u{e9}", 0, 2 => line 0, ls 0, ll 2, col 0, len 2););
+pe_harness!(parse_error_new__text_e__span_2_2, pe_case!("\u{e9}", 2, 2 => line 0, ls 0, ll 2, col 2, len 0););
+pe_harness!(parse_error_new__text_nl_nl__span_0_0, pe_case!("\n\n", 0, 0 => line 0, ls 0, ll 0, col 0, len 0););
+pe_harness!(parse_error_new__text_nl_nl__span_0_1, pe_case!("\n\n", 0, 1 => line 0, ls 0, ll 0, col 0, len 0););
+pe_harness!(parse_error_new__text_nl_nl__span_0_2, pe_case!("\n\n", 0, 2 => line 0, ls 0, ll 0, col 0, len 0););
+pe_harness!(parse_error_new__text_nl_nl__span_1_1, pe_case!("\n\n", 1, 1 => line 1, ls 1, ll 0, col 0, len 0););
+pe_harness!(parse_error_new__text_nl_nl__span_1_2, pe_case!("\n\n", 1, 2 => line 1, ls 1, ll 0, col 0, len 0););
+pe_harness!(parse_error_new__text_nl_nl__span_2_2, pe_case!("\n\n", 2, 2 => line 2, ls 2, ll 0, col 0, len 0););
+pe_harness!(parse_error_new__text_nl_a__span_0_0, pe_case!("\na", 0, 0 => line 0, ls 0, ll 0, col 0, len 0););
+pe_harness!(parse_error_new__text_nl_a__span_0_1, pe_case!("\na", 0, 1 => line 0, ls 0, ll 0, col 0, len 0););
+pe_harness!(parse_error_new__text_nl_a__span_0_2, pe_case!("\na", 0, 2 => line 0, ls 0, ll 0, col 0, len 0););
+pe_harness!(parse_error_new__text_nl_a__span_1_1, pe_case!("\na", 1, 1 => line 1, ls 1, ll 1, col 0, len 0););
+pe_harness!(parse_error_new__text_nl_a__span_1_2, pe_case!("\na", 1, 2 => line 1, ls 1, ll 1, col 0, len 1););
+pe_harness!(parse_error_new__text_nl_a__span_2_2, pe_case!("\na", 2, 2 => line 1, ls 1, ll 1, col 1, len 0););
+pe_harness!(parse_error_new__text_nl_e__span_0_0, pe_case!("\n\u{e9}", 0, 0 => line 0, ls 0, ll 0, col 0, len 0););
+pe_harness!(parse_error_new__text_nl_e__span_0_1, pe_case!("\n\u{e9}", 0, 1 => line 0, ls 0, ll 0, col 0, len 0););
+pe_harness!(parse_error_new__text_nl_e__span_0_3, pe_case!("\n\u{e9}", 0, 3 => line 0, ls 0, ll 0, col 0, len 0););
+pe_harness!(parse_error_new__text_nl_e__span_1_1, pe_case!("\n\u{e9}", 1, 1 => line 1, ls 1, ll 2, col 0, len 0););
+pe_harness!(parse_error_new__text_nl_e__span_1_3, pe_case!("\n\u{e9}", 1, 3 => line 1, ls 1, ll 2, col 0, len 2););
+pe_harness!(parse_error_new__text_nl_e__span_3_3, pe_case!("\n\u{e9}", 3, 3 => line 1, ls 1, ll 2, col 2, len 0););
+pe_harness!(parse_error_new__text_a_nl__span_0_0, pe_case!("a\n", 0, 0 => line 0, ls 0, ll 1, col 0, len 0););
+pe_harness!(parse_error_new__text_a_nl__span_0_1, pe_case!("a\n", 0, 1 => line 0, ls 0, ll 1, col 0, len 1););
+pe_harness!(parse_error_new__text_a_nl__span_0_2, pe_case!("a\n", 0, 2 => line 0, ls 0, ll 1, col 0, len 1););
+pe_harness!(parse_error_new__text_a_nl__span_1_1, pe_case!("a\n", 1, 1 => line 0, ls 0, ll 1, col 1, len 0););
+pe_harness!(parse_error_new__text_a_nl__span_1_2, pe_case!("a\n", 1, 2 => line 0, ls 0, ll 1, col 1, len 0););
+pe_harness!(parse_error_new__text_a_nl__span_2_2, pe_case!("a\n", 2, 2 => line 1, ls 2, ll 0, col 0, len 0););
+pe_harness!(parse_error_new__text_a_a__span_0_0, pe_case!("aa", 0, 0 => line 0, ls 0, ll 2, col 0, len 0););
+pe_harness!(parse_error_new__text_a_a__span_0_1, pe_case!("aa", 0, 1 => line 0, ls 0, ll 2, col 0, len 1););
+pe_harness!(parse_error_new__text_a_a__span_0_2, pe_case!("aa", 0, 2 => line 0, ls 0, ll 2, col 0, len 2););
+pe_harness!(parse_error_new__text_a_a__span_1_1, pe_case!("aa", 1, 1 => line 0, ls 0, ll 2, col 1, len 0););
+pe_harness!(parse_error_new__text_a_a__span_1_2, pe_case!("aa", 1, 2 => line 0, ls 0, ll 2, col 1, len 1););
+pe_harness!(parse_error_new__text_a_a__span_2_2, pe_case!("aa", 2, 2 => line 0, ls 0, ll 2, col 2, len 0););
+pe_harness!(parse_error_new__text_a_e__span_0_0, pe_case!("a\u{e9}", 0, 0 => line 0, ls 0, ll 3, col 0, len 0););
+pe_harness!(parse_error_new__text_a_e__span_0_1, pe_case!("a\u{e9}", 0, 1 => line 0, ls 0, ll 3, col 0, len 1););
+pe_harness!(parse_error_new__text_a_e__span_0_3, pe_case!("a\u{e9}", 0, 3 => line 0, ls 0, ll 3, col 0, len 3););
+pe_harness!(parse_error_new__text_a_e__span_1_1, pe_case!("a\u{e9}", 1, 1 => line 0, ls 0, ll 3, col 1, len 0););
+pe_harness!(parse_error_new__text_a_e__span_1_3, pe_case!("a\u{e9}", 1, 3 => line 0, ls 0, ll 3, col 1, len 2););
+pe_harness!(parse_error_new__text_a_e__span_3_3, pe_case!("a\u{e9}", 3, 3 => line 0, ls 0, ll 3, col 3, len 0););
+pe_harness!(parse_error_new__text_e_nl__span_0_0, pe_case!("\u{e9}\n", 0, 0 => line 0, ls 0, ll 2, col 0, len 0););
+pe_harness!(parse_error_new__text_e_nl__span_0_2, pe_case!("\u{e9}\n", 0, 2 => line 0, ls 0, ll 2, col 0, len 2););
+pe_harness!(parse_error_new__text_e_nl__span_0_3, pe_case!("\u{e9}\n", 0, 3 => line 0, ls 0, ll 2, col 0, len 2););
+pe_harness!(parse_error_new__text_e_nl__span_2_2, pe_case!("\u{e9}\n", 2, 2 => line 0, ls 0, ll 2, col 2, len 0););
+pe_harness!(parse_error_new__text_e_nl__span_2_3, pe_case!("\u{e9}\n", 2, 3 => line 0, ls 0, ll 2, col 2, len 0););
+pe_harness!(parse_error_new__text_e_nl__span_3_3, pe_case!("\u{e9}\n", 3, 3 => line 1, ls 3, ll 0, col 0, len 0););
+pe_harness!(parse_error_new__text_e_a__span_0_0, pe_case!("\u{e9}a", 0, 0 => line 0, ls 0, ll 3, col 0, len 0););
+pe_harness!(parse_error_new__text_e_a__span_0_2, pe_case!("\u{e9}a", 0, 2 => line 0, ls 0, ll 3, col 0, len 2););
+pe_harness!(parse_error_new__text_e_a__span_0_3, pe_case!("\u{e9}a", 0, 3 => line 0, ls 0, ll 3, col 0, len 3););
+pe_harness!(parse_error_new__text_e_a__span_2_2, pe_case!("\u{e9}a", 2, 2 => line 0, ls 0, ll 3, col 2, len 0););
+pe_harness!(parse_error_new__text_e_a__span_2_3, pe_case!("\u{e9}a", 2, 3 => line 0, ls 0, ll 3, col 2, len 1););
+pe_harness!(parse_error_new__text_e_a__span_3_3, pe_case!("\u{e9}a", 3, 3 => line 0, ls 0, ll 3, col 3, len 0););
+pe_harness!(parse_error_new__text_e_e__span_0_0, pe_case!("\u{e9}\u{e9}", 0, 0 => line 0, ls 0, ll 4, col 0, len 0););
+pe_harness!(parse_error_new__text_e_e__span_0_2, pe_case!("\u{e9}\u{e9}", 0, 2 => line 0, ls 0, ll 4, col 0, len 2););
+pe_harness!(parse_error_new__text_e_e__span_0_4, pe_case!("\u{e9}\u{e9}", 0, 4 => line 0, ls 0, ll 4, col 0, len 4););
+pe_harness!(parse_error_new__text_e_e__span_2_2, pe_case!("\u{e9}\u{e9}", 2, 2 => line 0, ls 0, ll 4, col 2, len 0););
+pe_harness!(parse_error_new__text_e_e__span_2_4, pe_case!("\u{e9}\u{e9}", 2, 4 => line 0, ls 0, ll 4, col 2, len 2););
+pe_harness!(parse_error_new__text_e_e__span_4_4, pe_case!("\u{e9}\u{e9}", 4, 4 => line 0, ls 0, ll 4, col 4, len 0););
+pe_harness!(parse_error_new__text_a_nl_e__span_0_0, pe_case!("a\n\u{e9}", 0, 0 => line 0, ls 0, ll 1, col 0, len 0););
+pe_harness!(parse_error_new__text_a_nl_e__span_0_1, pe_case!("a\n\u{e9}", 0, 1 => line 0, ls 0, ll 1, col 0, len 1););
+pe_harness!(parse_error_new__text_a_nl_e__span_0_2, pe_case!("a\n\u{e9}", 0, 2 => line 0, ls 0, ll 1, col 0, len 1););
+pe_harness!(parse_error_new__text_a_nl_e__span_0_4, pe_case!("a\n\u{e9}", 0, 4 => line 0, ls 0, ll 1, col 0, len 1););
+pe_harness!(parse_error_new__text_a_nl_e__span_1_1, pe_case!("a\n\u{e9}", 1, 1 => line 0, ls 0, ll 1, col 1, len 0););
+pe_harness!(parse_error_new__text_a_nl_e__span_1_2, pe_case!("a\n\u{e9}", 1, 2 => line 0, ls 0, ll 1, col 1, len 0););
+pe_harness!(parse_error_new__text_a_nl_e__span_1_4, pe_case!("a\n\u{e9}", 1, 4 => line 0, ls 0, ll 1, col 1, len 0););
+pe_harness!(parse_error_new__text_a_nl_e__span_2_2, pe_case!("a\n\u{e9}", 2, 2 => line 1, ls 2, ll 2, col 0, len 0););
+pe_harness!(parse_error_new__text_a_nl_e__span_2_4, pe_case!("a\n\u{e9}", 2, 4 => line 1, ls 2, ll 2, col 0, len 2););
+pe_harness!(parse_error_new__text_a_nl_e__span_4_4, pe_case!("a\n\u{e9}", 4, 4 => line 1, ls 2, ll 2, col 2, len 0););
+pe_harness!(parse_error_new__text_nl_e_nl__span_0_0, pe_case!("\n\u{e9}\n", 0, 0 => line 0, ls 0, ll 0, col 0, len 0););
+pe_harness!(parse_error_new__text_nl_e_nl__span_0_1, pe_case!("\n\u{e9}\n", 0, 1 => line 0, ls 0, ll 0, col 0, len 0););
+pe_harness!(parse_error_new__text_nl_e_nl__span_0_3, pe_case!("\n\u{e9}\n", 0, 3 => line 0, ls 0, ll 0, col 0, len 0););
+pe_harness!(parse_error_new__text_nl_e_nl__span_0_4, pe_case!("\n\u{e9}\n", 0, 4 => line 0, ls 0, ll 0, col 0, len 0););
+pe_harness!(parse_error_new__text_nl_e_nl__span_1_1, pe_case!("\n\u{e9}\n", 1, 1 => line 1, ls 1, ll 2, col 0, len 0););
+pe_harness!(parse_error_new__text_nl_e_nl__span_1_3, pe_case!("\n\u{e9}\n", 1, 3 => line 1, ls 1, ll 2, col 0, len 2););
+pe_harness!(parse_error_new__text_nl_e_nl__span_1_4, pe_case!("\n\u{e9}\n", 1, 4 => line 1, ls 1, ll 2, col 0, len 2););
+pe_harness!(parse_error_new__text_nl_e_nl__span_3_3, pe_case!("\n\u{e9}\n", 3, 3 => line 1, ls 1, ll 2, col 2, len 0););
+pe_harness!(parse_error_new__text_nl_e_nl__span_3_4, pe_case!("\n\u{e9}\n", 3, 4 => line 1, ls 1, ll 2, col 2, len 0););
+pe_harness!(parse_error_new__text_nl_e_nl__span_4_4, pe_case!("\n\u{e9}\n", 4, 4 => line 2, ls 4, ll 0, col 0, len 0););
 
 /// Regression obligation with a multi-byte character in front of the span on a later
 /// line: `"é\nxé y"`, span = the `y` (byte 7).  Columns are BYTE offsets inside the line;
@@ -476,24 +145,4 @@ fn parse_error_new__multibyte_line_concrete() {
     assert!(err.input.is_char_boundary(err.span_start) && err.input.is_char_boundary(err.span_start + err.span_len));
     kani::cover!(true, "completed");
     std::mem::forget(err);
-}
-
-#[kani::proof]
-#[kani::unwind(8)]
-fn probe_pe_1() {
-    check_one("a\n", 0, 1);
-}
-#[kani::proof]
-#[kani::unwind(8)]
-fn probe_pe_2() {
-    check_one("a\n", 0, 1);
-    check_one("\na", 1, 2);
-}
-#[kani::proof]
-#[kani::unwind(8)]
-fn probe_pe_4() {
-    check_one("a\n", 0, 1);
-    check_one("\na", 1, 2);
-    check_one("\n\n", 1, 2);
-    check_one("aa", 0, 2);
 }
